@@ -7,7 +7,7 @@ from oracles import cgroup as CG, detect as D, engine
 ID = "C08"
 LEVEL = "exploration"
 FLAVORS = ["asan"]
-RULE = ("16-22 tick histories on the virtual clock with irregular spacing (0, 0.5, 1, 1.5, 2, 7 s), 3-4 watched cgroups whose pressure / usage / "
+RULE = ("16-22 tick histories on the virtual clock with irregular spacing (0, 0.5, 1, 1.5, 2, 7 s, and holes of 31 s to a day), 3-4 watched cgroups whose pressure / usage / "
         "pgscan / dying-descendant values hover around the thresholds, cgroups vanishing and returning, thresholds as integers, bare MB, "
         "K/M/G suffixes and percent, durations 0-30, both resources, single / multi / wildcard / non-matching patterns; each real detector "
         "sits alone in a detector group in front of a scripted action, so 'action ran on tick i' <=> 'detector returned CONTINUE on tick i'; "
@@ -123,6 +123,10 @@ def cases(seed, tier):
                     used = rng.choice([0, swap_kb // 2, swap_kb * 9 // 10, swap_kb * 96 // 100, swap_kb])
                     ops.append({"op": "write", "proc": "swaps", "text": W.swaps(((swap_kb, used),))})
             ticks.append({"step_ns": rng.choice([0, 5 * 10**8, 10**9, 10**9, 10**9, 15 * 10**8, 2 * 10**9, 7 * 10**9]), "ops": ops})
+        if rng.random() < 0.3:
+            # holes in the sample series: the main loop stalled (or runs with a long interval) for much longer than any duration
+            for t in rng.sample(range(2, nticks), rng.choice([1, 1, 2])):
+                ticks[t]["step_ns"] = rng.choice([31, 45, 90, 600, 86400]) * 10**9
         proc = W.proc(mem_total_kb=mem_total_kb, swap_entries=((swap_kb, swap_kb // 4),) if swap_kb else ())
         scn = KG.base_scn(cid, cgs, {"rulesets": rulesets}, ticks=ticks, proc=proc)
         yield core.Case(cid, [scn], {"detectors": [(r["detectors"][0][1]["name"], r["detectors"][0][1]["args"]) for r in rulesets]})
